@@ -27,7 +27,7 @@ ASSUMPTIONS = ['deterministic dividers (set, split of even integers, zero)',
                'states given to _add / _generate only name declared variables',
                'Store-level: operations are applied directly with Store.apply_update (engine-level histories are C10)']
 
-KINDS = ['add', 'add_existing', 'delete', 'delete_path', 'delete_var', 'generate', 'divide', 'move', 'move_update',
+KINDS = ['add', 'add_dup', 'add_existing', 'delete', 'delete_path', 'delete_var', 'generate', 'divide', 'move', 'move_update',
          'combo', 'plain']
 
 
@@ -46,6 +46,8 @@ def gen(r, tier, i):
                 k = fresh.pop(0)
                 here.append(k)
                 return ['add', port, k, 64 * r.randint(0, 9)]
+            if kind == 'add_dup' and fresh:
+                return ['add_dup', port, fresh.pop(0), 64 * r.randint(0, 9)]
             if kind == 'add_existing' and here:
                 return ['add_existing', port, r.choice(here), 64 * r.randint(0, 9)]
             if kind in ('delete', 'delete_path') and here:
@@ -180,6 +182,13 @@ def run(spec):
                     break
                 u.setdefault('_add', []).append({'key': key, 'state': {'st': {'n': op[3]}}})
                 adds.append(op)
+            elif kind == 'add_dup':
+                if present:
+                    valid = False
+                    break
+                u.setdefault('_add', []).append({'key': key, 'state': {'st': {'n': op[3]}}})
+                u['_add'].append({'key': key, 'state': {'st': {'n': op[3] + 64}}})
+                expect_raise = 'dup'
             elif kind == 'add_existing':
                 if not present:
                     valid = False
@@ -294,6 +303,21 @@ def run(spec):
         applied += 1
         kinds_seen.update(op[0] for op in ops)
         combos += len(ops) > 1
+        if expect_raise == 'dup':
+            # the second entry names a key that exists by then: it must be rejected; the first entry may
+            # already have been carried out (no atomicity is promised)
+            V.check('add_existing_rejected', raised is not None, lambda: ('an _add list naming one key twice was accepted', ops))
+            op = ops[0]
+            with_first = copy.deepcopy(shadow)
+            with_first[op[1]][op[2]] = {'st': {'n': op[3]}}
+            got = real_tree()
+            V.check('add_existing_rejected', got == shadow or got == with_first,
+                    lambda: ('after the rejected duplicate _add the hierarchy is neither unchanged nor holds the first entry', _ddiff(with_first, got)))
+            if got == with_first:
+                shadow = with_first
+            elif got != shadow:
+                break
+            continue
         if expect_raise:
             V.check('add_existing_rejected', raised is not None, lambda: ('_add of an existing key was accepted', ops))
             if len(ops) == 1:
